@@ -7,6 +7,14 @@ ALL = ["C%02d" % i for i in range(1, 21)]
 
 # id -> (category, technique, text, note)
 CHECKS = {
+ "C01": ("exploration",
+         "bounded-exhaustive enumeration of policies; each compiled filter is executed in a cBPF interpreter over struct seccomp_data on a closed input set (thorough: full 2^32 syscall-number and architecture-tag sweeps) against the reference policy semantics",
+         "Every assignment {absent, allow, trace} of a 6-name (thorough: 8) syscall alphabet x 8 default-action values x both list orders, plus whole-table / alternating / shipped run-program policies that force the long-jump code paths, plus malformed policies that must be refused. The filter that Build() hands to the kernel (after ExportBPF, via SockFprog) is interpreted with kernel cBPF semantics on native-arch x {0..4095 (thorough 0..65535), every table number +-1 with and without bit 30 / bit 31, boundary values} and on 63 foreign/flipped architecture tags; thorough adds complete 2^32 syscall-number sweeps (6 policies x 3 tags) and complete 2^32 architecture sweeps.",
+         "Trusted: /verif/cbpf interpreter (kernel classic-BPF semantics for the seccomp subset; a structural pass re-checks per program that only nr and arch are loaded, so ip/args cannot matter). For nr >= 2^31 with bit 30 clear the oracle accepts refusal or the default action (the dependency refuses everything >= 2^30, which is stricter than the property)."),
+ "C09": ("exploration",
+         "exhaustive enumeration of the finite domain (exit codes x terminating signals x faults x child variants x 4 runner set-ups) on real runs, against the documented status table",
+         "Every exit code (quick: 6 representatives, thorough: 0..255), every signal 1..64 whose default action terminates (self-raised with a raw kill and default disposition), five kernel-forced faults, SIGKILL from the host while the program runs, and main-process endings combined with a child that exits / is signalled before, while or after the main process ends, under the ptrace runner, the namespace runner, and a container with sync before and after exec; result status and exit value compared with the README table.",
+         "The namespace runner's program is pid 1 of its pid namespace: the kernel discards default-disposition signals it raises itself, so for that runner the signal domain is faults + host SIGKILL. Stop signals and default-ignored signals are outside the property."),
  "C18": ("exploration",
          "bounded-exhaustive enumeration of entry sets x query paths and of counter call histories on the exported filehandler API, against an independent definition of coverage",
          "Every entry set of size <=2 (thorough: <=3) over {exact, d/, d/*} x all paths to depth 3 (thorough: 4) is queried with every path incl. '/' and the empty path; every (Writable,Readable,Statable,SoftBan) 4-tuple of sets of size <=1 at depth 2 is checked through Handler.CheckRead/Write/Stat; a real symlink forest covers the raw-or-real clause; every counter table of <=2 names x counts {-1..3} is driven with every call sequence up to length 6 (7). Complete enumeration, no sampling.",
